@@ -88,6 +88,34 @@ def release_port(p):
         pass
 
 
+def listens_on(pid, port):
+    """does process pid itself own a listening TCP socket on 127.0.0.1:port?  (the server keeps running when its bind fails,
+    so "something answers on the port" does not prove that it is the process we started)"""
+    want = "0100007F:%04X" % port
+    inodes = set()
+    for fn in ("/proc/net/tcp",):
+        try:
+            for line in open(fn).read().split("\n")[1:]:
+                f = line.split()
+                if len(f) > 9 and f[1] == want and f[3] == "0A":
+                    inodes.add(f[9])
+        except OSError:
+            return True          # cannot tell: do not block
+    if not inodes:
+        return False
+    try:
+        for fd in os.listdir(f"/proc/{pid}/fd"):
+            try:
+                l = os.readlink(f"/proc/{pid}/fd/{fd}")
+            except OSError:
+                continue
+            if l.startswith("socket:[") and l[8:-1] in inodes:
+                return True
+    except OSError:
+        return True
+    return False
+
+
 class Server:
     def __init__(self, dictionary, user_dir=None, workers=None, save_seconds=None, env=None, wait=True):
         e = dict(os.environ)
@@ -111,10 +139,15 @@ class Server:
                 break
             if self.up:
                 time.sleep(0.05)
-                if self.proc.poll() is None:
+                if self.proc.poll() is None and listens_on(self.proc.pid, self.port):
                     break            # our own process is the one listening
-            # the process died (e.g. the port was taken by a foreign process after all): once more on another port, unless it
-            # dies for a reason of its own (then the last attempt's state is what the caller sees)
+                if self.proc.poll() is None:
+                    # something else answers on the port and our process (which survives a failed bind) does not listen: again elsewhere
+                    self.proc.kill()
+                    self.proc.wait(3)
+                    release_port(self.port)
+                    continue
+            # the process died or never came up: once more on another port only when the port was the reason
             if "Address already in use" not in self.logtext() and "AddrInUse" not in self.logtext():
                 break
             release_port(self.port)
